@@ -2,7 +2,7 @@
 // if A's poll is preempted between its failed try_acquire and the poll of its (already notified) listener,
 // both notify(1) calls are absorbed by A's entry, A then consumes the notification, acquires, and nobody
 // wakes B although a permit is available.
-use async_lock::Semaphore;
+use async_lock::{Mutex, Semaphore};
 use loom::sync::atomic::{AtomicBool, Ordering};
 use loom::sync::Arc;
 use std::future::Future;
@@ -32,60 +32,132 @@ fn flag_waker(flag: Arc<AtomicBool>) -> Waker {
     unsafe { Waker::from_raw(RawWaker::new(Arc::into_raw(flag) as *const (), &VT)) }
 }
 
-/// C07, schedule half: two releases while a notified waiter is being re-polled.
+static EXECUTIONS: std::sync::atomic::AtomicUsize = std::sync::atomic::AtomicUsize::new(0);
+
+/// A future with the flag its wakers set; `poll` = "the task whose waker was called is polled again".
+struct Task<F: Future> {
+    fut: Pin<Box<F>>,
+    flag: Arc<AtomicBool>,
+    out: Option<F::Output>,
+    polled: bool,
+}
+impl<F: Future> Task<F> {
+    fn new(f: F) -> Self {
+        Task { fut: Box::pin(f), flag: Arc::new(AtomicBool::new(false)), out: None, polled: false }
+    }
+    fn poll(&mut self) {
+        if self.out.is_some() {
+            return;
+        }
+        self.polled = true;
+        self.flag.store(false, Ordering::SeqCst);
+        let w = flag_waker(self.flag.clone());
+        let mut cx = Context::from_waker(&w);
+        if let Poll::Ready(v) = self.fut.as_mut().poll(&mut cx) {
+            self.out = Some(v);
+        }
+    }
+    fn pending(&self) -> bool {
+        self.polled && self.out.is_none()
+    }
+    fn woken(&self) -> bool {
+        self.flag.load(Ordering::SeqCst)
+    }
+    /// poll again for as long as the task is pending and its waker has been called
+    fn settle(&mut self) {
+        while self.pending() && self.woken() {
+            self.poll();
+        }
+    }
+}
+
+/// C07, schedule half: two releases while a notified waiter is being re-polled on another thread.
 fn sem_absorbed_release() {
     let mut b = loom::model::Builder::new();
     b.preemption_bound = Some(3);
     b.check(|| {
+        EXECUTIONS.fetch_add(1, std::sync::atomic::Ordering::Relaxed);
         let sem = std::sync::Arc::new(Semaphore::new(2));
         let g1 = sem.try_acquire_arc().unwrap();
         let g2 = sem.try_acquire_arc().unwrap();
-        let wa = Arc::new(AtomicBool::new(false));
-        let wb = Arc::new(AtomicBool::new(false));
-        let mut fa = Box::pin(sem.acquire_arc());
-        let mut fb = Box::pin(sem.acquire_arc());
-        {
-            let w = flag_waker(wa.clone());
-            let mut cx = Context::from_waker(&w);
-            assert!(fa.as_mut().poll(&mut cx).is_pending());
-            let w = flag_waker(wb.clone());
-            let mut cx = Context::from_waker(&w);
-            assert!(fb.as_mut().poll(&mut cx).is_pending());
-        }
+        let mut ta = Task::new(sem.acquire_arc());
+        let mut tb = Task::new(sem.acquire_arc());
+        ta.poll();
+        tb.poll();
+        assert!(ta.pending() && tb.pending());
         drop(g1); // count = 1, A notified
-        assert!(wa.load(Ordering::SeqCst));
+        assert!(ta.woken());
         let c = sem.try_acquire_arc().unwrap(); // a barger takes the permit: count = 0
-        let wa2 = wa.clone();
         let t = loom::thread::spawn(move || {
-            let w = flag_waker(wa2);
-            let mut cx = Context::from_waker(&w);
-            let r = fa.as_mut().poll(&mut cx);
-            match r { Poll::Ready(g) => (Some(g), fa), Poll::Pending => (None, fa) }
+            ta.poll(); // the woken task is polled again, concurrently with the two releases
+            ta
         });
         drop(g2); // count += 1, notify(1)
         drop(c); // count += 1, notify(1)
-        let (ra, fa) = t.join().unwrap();
-        // quiescent point: A has been re-polled. Two permits were released; A holds at most one.
-        let b_woken = wb.load(Ordering::SeqCst);
+        let mut ta = t.join().unwrap();
+        // run to quiescence: every task whose waker was called is polled again
+        loop {
+            let before = (ta.pending(), tb.pending());
+            ta.settle();
+            tb.settle();
+            if !(ta.pending() && ta.woken()) && !(tb.pending() && tb.woken()) && before == (ta.pending(), tb.pending()) {
+                break;
+            }
+        }
         let free = sem.try_acquire_arc();
-        if free.is_some() && !b_woken {
-            panic!("LOOM-VIOLATION sem_absorbed_release: lost wake-up: a permit is available, every woken task has been polled again, B (polled, pending) was never woken; A ready = {}", ra.is_some());
+        if free.is_some() && (ta.pending() || tb.pending()) {
+            panic!("LOOM-VIOLATION sem_absorbed_release: lost wake-up: a permit is available, every woken task has been polled again, but a polled acquire future is pending and was not woken (A pending = {}, B pending = {})", ta.pending(), tb.pending());
         }
         drop(free);
-        drop(fb);
-        drop(fa);
-        drop(ra);
+        drop(tb);
+        drop(ta);
+    });
+}
+
+/// C05, schedule half: a lock future completes through the compare_exchange right after listen() (the holder
+/// unlocked between the future's try_lock and that compare_exchange) and is kept alive; does its listener stay in
+/// lock_ops and swallow the notification of the next unlock?
+fn mutex_stale_listener() {
+    let mut b = loom::model::Builder::new();
+    b.preemption_bound = Some(3);
+    b.check(|| {
+        EXECUTIONS.fetch_add(1, std::sync::atomic::Ordering::Relaxed);
+        let m = std::sync::Arc::new(Mutex::new(0u32));
+        let g = m.try_lock_arc().unwrap();
+        let mut ta = Task::new(m.lock_arc());
+        let t = loom::thread::spawn(move || drop(g)); // the holder unlocks concurrently with A's first poll
+        ta.poll();
+        t.join().unwrap();
+        ta.settle();
+        if ta.pending() {
+            panic!("LOOM-VIOLATION mutex_stale_listener: lost wake-up: the mutex is unlocked, every woken task has been polled again, A is pending");
+        }
+        // A completed; its future is kept alive while its guard is used and dropped
+        let mut tb = Task::new(m.lock_arc());
+        tb.poll();
+        assert!(tb.pending());
+        let ga = ta.out.take();
+        drop(ga); // unlock: notify(1)
+        tb.settle();
+        let free = m.try_lock_arc();
+        if free.is_some() && tb.pending() {
+            panic!("LOOM-VIOLATION mutex_stale_listener: lost wake-up: the mutex is unlocked, every woken task has been polled again, B (polled, pending) was never woken; the completed lock_arc() future A is still alive");
+        }
+        drop(free);
+        drop(tb);
+        drop(ta);
     });
 }
 
 fn main() {
     let which = std::env::args().nth(1).unwrap_or_else(|| "all".to_string());
-    let tests: Vec<(&str, fn())> = vec![("sem_absorbed_release", sem_absorbed_release)];
+    let tests: Vec<(&str, fn())> = vec![("sem_absorbed_release", sem_absorbed_release), ("mutex_stale_listener", mutex_stale_listener)];
     for (name, f) in tests {
         if which == "all" || which == name {
             eprintln!("LOOM-RUN {}", name);
+            EXECUTIONS.store(0, std::sync::atomic::Ordering::Relaxed);
             f(); // a violation panics (loom prints the failing execution's panic message) and the process exits non-zero
-            println!("LOOM-OK {}", name);
+            println!("LOOM-OK {} executions={}", name, EXECUTIONS.load(std::sync::atomic::Ordering::Relaxed));
         }
     }
 }
